@@ -53,6 +53,28 @@ MOF = 'pywbem/_mof_compiler.py'
 MOCKMOF = 'pywbem_mock/_mockmofwbemconnection.py'
 
 
+def _r13_names_compared_caselessly(repo, rep):
+    """C09.R13: the compiler compares CIM names (class names, reference
+    classes, superclasses) without regard to lexical case, like the
+    repositories, NocaseList and find_mof() it works with.  The dependency
+    resolution of p_mp_createClass excludes the class being compiled from
+    its own dependencies by such a comparison; a case-sensitive test makes
+    a class that refers to itself in another spelling (`tst_node REF Next`
+    in class TST_Node) its own unresolved dependency: find_mof() finds the
+    file being compiled, compile_file() re-enters it, and the compile ends
+    in RecursionError instead of terminating with a MOFCompileError."""
+    from .. import names
+    r13 = rep.rule('C09.R13', 'CIM names are compared case-insensitively in '
+                   'the MOF compiler')
+    r13b = rep.rule('C09.R13b', 'no uncalled string method in a comparison '
+                    '(MOF compiler)')
+    names.run_name_rules(repo, rep, r13, r13b, lambda f: f.file == MOF,
+                         modules=[MOF], api_classes=())
+    if r13.sites < 3:
+        raise AnalysisError('C09.R13: only %d name comparisons found in the '
+                            'MOF compiler' % r13.sites)
+
+
 def run(repo, rep, tier):
     r1 = rep.rule('C09.R1', 'only MOFCompileError (or OSError for files) '
                   'escapes the compiler: value/type errors of object '
@@ -65,6 +87,7 @@ def run(repo, rep, tier):
                   'regex')
     r6 = rep.rule('C09.R6', 'per-compile parser state is re-initialised by every '
                   'entry point or reset in a finally')
+    _r13_names_compared_caselessly(repo, rep)
     _r9_cache_after_commit(repo, rep)
     _r10_reported_file_is_opened_file(repo, rep)
     _r11_cache_key_is_target_namespace(repo, rep)
